@@ -465,7 +465,11 @@ func (e *Env) quant(n *EQuant) Val {
 		}
 	}
 	if n.Forall {
-		return Forall(vars, Implies(And(ranges...), body))
+		return forallPat(vars, Implies(And(ranges...), body))
+	}
+	ex := forallPat(vars, And(append(ranges, body)...))
+	if strings.HasPrefix(ex.S, "(forall ") {
+		return Term{"(exists " + ex.S[len("(forall "):], BoolSort()}
 	}
 	return Exists(vars, And(append(ranges, body)...))
 }
@@ -653,16 +657,47 @@ func (e *Env) call(n *ECall) (Val, types.Type) {
 		return False, nil
 	case "as":
 		// as(T, addr): addr viewed as *T (T a struct type of the package)
-		id, ok := n.Args[0].(*EIdent)
-		if !ok || e.pkg == nil {
-			e.fail("as(Type, addr)")
+		var obj types.Object
+		switch tn := n.Args[0].(type) {
+		case *EIdent:
+			if e.pkg != nil {
+				obj = e.pkg.Scope().Lookup(tn.Name)
+			}
+		case *ESel:
+			if q, ok := tn.X.(*EIdent); ok && e.pkg != nil {
+				for _, imp := range e.pkg.Imports() {
+					if imp.Name() == q.Name {
+						obj = imp.Scope().Lookup(tn.Name)
+					}
+				}
+			}
 		}
-		obj := e.pkg.Scope().Lookup(id.Name)
 		if obj == nil {
-			e.fail("as: unknown type %s", id.Name)
+			e.fail("as: unknown type %s", n.Args[0])
 		}
 		a := argT(1)
 		return Term{a.S, BV(64, false)}, types.NewPointer(obj.Type())
+	case "mention":
+		// mention(t): a trivially true atom (mention_S t) - mention_S is declared
+		// with the axiom "forall x. mention_S x" - that keeps the ground term t
+		// available to the solver's quantifier instantiation (E-matching).
+		t := argT(0)
+		nm := "mention_" + mangle(t.Sort.SMT())
+		root := e.r
+		for root.parent != nil {
+			root = root.parent
+		}
+		if root.ghostDecls == nil {
+			root.ghostDecls = map[string]string{}
+		}
+		root.ghostDecls[nm] = fmt.Sprintf("(declare-fun %s (%s) Bool)\n(assert (forall ((x!m %s)) (! (%s x!m) :pattern ((%s x!m)))))\n", nm, t.Sort.SMT(), t.Sort.SMT(), nm, nm)
+		return Term{"(" + nm + " " + t.S + ")", BoolSort()}, nil
+	case "strrank":
+		sv, ok := arg(0).(*StructVal)
+		if !ok || len(sv.F) != 2 {
+			e.fail("strrank needs a string value")
+		}
+		return strRank(e.st.memArr("M8"), sv), nil
 	case "f64frombits", "f32frombits":
 		t := argT(0)
 		w := 64
@@ -745,6 +780,12 @@ func (e *Env) call(n *ECall) (Val, types.Type) {
 		wordSort := func(ab string) Sort {
 			if ab == "word" {
 				return BV(64, false)
+			}
+			if ab == "int" {
+				return BV(64, true)
+			}
+			if ab == "rank" {
+				return Sort{K: KInt, W: 64, Signed: true}
 			}
 			s, err := parseSortAbbrev(ab)
 			if err != nil {
@@ -920,4 +961,66 @@ func (e *Env) unspecified(v Val) Val {
 		return out
 	}
 	return v
+}
+
+// forallPat builds a universal quantifier; when every bound variable occurs as
+// a direct argument of some ghost-function application in the body, those
+// applications become the instantiation pattern (arithmetic inside memory
+// addresses is useless as a trigger).
+func forallPat(vars []Term, body Term) Term {
+	if len(vars) == 0 || body.S == "true" {
+		return body
+	}
+	var pats []string
+	covered := map[string]bool{}
+	seen := map[string]bool{}
+	text := body.S
+	idx := 0
+	for {
+		k := strings.Index(text[idx:], "(gf_")
+		if k < 0 {
+			break
+		}
+		p := idx + k
+		j := p + 1
+		for j < len(text) && text[j] != ' ' {
+			j++
+		}
+		args, end := scanSexprArgs(text, j)
+		idx = p + 4
+		if end < 0 {
+			continue
+		}
+		appl := text[p:end]
+		if seen[appl] || strings.Contains(appl, "(forall") || strings.Contains(appl, "(exists") {
+			continue
+		}
+		hit := false
+		for _, a := range args {
+			for _, v := range vars {
+				if a == v.S {
+					covered[v.S] = true
+					hit = true
+				}
+			}
+		}
+		if hit {
+			seen[appl] = true
+			pats = append(pats, appl)
+		}
+	}
+	if len(covered) != len(vars) || len(pats) == 0 || len(pats) > 4 {
+		return Forall(vars, body)
+	}
+	var sb strings.Builder
+	sb.WriteString("(forall (")
+	for _, v := range vars {
+		fmt.Fprintf(&sb, "(%s %s)", v.S, v.Sort.SMT())
+	}
+	sb.WriteString(") (! ")
+	sb.WriteString(body.S)
+	sb.WriteString(" :pattern (")
+	sb.WriteString(strings.Join(pats, " "))
+	sb.WriteString(")))")
+	return Term{sb.String(), BoolSort()}
 }
